@@ -1,6 +1,9 @@
 # per-property configuration of the check driver
 ADDR_TB = ['model: coq/theories/Addr/Model.v (hand-written from src/addr.rs, paging/page.rs, paging/frame.rs, paging/page_table.rs index/offset/level types)']
 PROPS = {
+ 'C08': dict(engine='pte', profiles=['debug'], trusted_base=['model: coq/theories/Paging/Entry.v (PageTableEntry, PageTable of src/structures/paging/page_table.rs); struct layout chosen by rustc (repr(C, align(4096)), repr(transparent)) is observed on the compiled artefact, not proved'],
+   rule='raw entries through every getter; programs of 1-8 setters (set_addr/set_frame/set_flags/set_unused) over aligned addresses x flag sets from bits 0-11 and 52-63 (plus misaligned addresses and undeclared/PAT_HUGE_PAGE flags as the malformed stream); every one of the 512 slots written through each of the three write paths and read back through all four read paths and raw bytes (exhaustive in slots and paths); non-trivial = program stores a non-zero address with non-zero flags, or a table with at least one write',
+   assumptions=['known finding F7a (flags() reports PAT_HUGE_PAGE when address bit 12 is set) is classified by the oracle and listed in known_findings.txt']),
  'C03': dict(engine='addr', profiles=['debug', 'release'], trusted_base=ADDR_TB,
    rule='corpus, then every model constant and power of two +-2 through every constructor, then boundary-directed/structured random u64, then random programs of 1-30 safe operations; distinct = distinct case; non-trivial = operand within 2 of a model constant or power of two, or address in the upper half / above 2^40, or a panic'),
  'C04': dict(engine='addr', profiles=['debug'], trusted_base=ADDR_TB, exhaustive=False,
